@@ -189,6 +189,10 @@ def register(T, repo):
         if isinstance(fv, pm.OptCallable) and fv.kind == 'end_func':
             ex.prove(st, 'safe:call-none@%d' % line, Not(fv.isnone), line)
             return pm.apply_handler(ex, st, fv, args, line, end_func=True)
+        if isinstance(fv, pm.OptCallable) and fv.kind == 'read_macros':
+            ex.prove(st, 'safe:call-none@%d' % line, Not(fv.isnone), line)
+            return iter([(st, (fresh_bool('ok'),
+                               fresh_seq('str', 'filetext', st.assume)))])
         if isinstance(fv, pm.OptCallable) and fv.kind == 'items':
             ex.prove(st, 'safe:call-none@%d' % line, Not(fv.isnone), line)
             return iter([(st, Opaque('labelgen'))])
@@ -233,13 +237,68 @@ def register(T, repo):
     T.add(FContract(
         PAR + 'get_text_direct', ghosts=parser_ghost,
         params=lambda G: {'self': AnyS(), 'toks': ListS(AnyS(), None)},
-        result=lambda A: StrS(name='text'), pure=True))
+        result=lambda A: StrS(name='text'),
+        ensures=[('empty-list-empty-text', lambda A, r: Implies(
+            zint(A['toks'].length()) == 0, zint(seq_len(r)) == 0))],
+        pure=True))
     T.add(FContract(
         PAR + 'get_text_expanded', ghosts=parser_ghost,
         params=lambda G: {'self': ParserS(G['src']),
                           'toks': tm.DocList(G['src'])},
         result=lambda A: StrS(name='text'),
+        # not proved (needs 'empty buffer gives empty expansion'):
+        assumed_ensures=[('text of an empty token list is empty',
+                          lambda A, r: Implies(zint(A['toks'].length()) == 0,
+                                               zint(seq_len(r)) == 0))],
         post_objs=[('parser', P_self, post_parser)]))
+
+    # ---- key-value lists (assumed contracts, bodies not verified yet)
+    def KeyValS(src):
+        return ListS(TupleS(StrS(name='key'),
+                            OptS(tm.DocList(src, None, None, 'val'))),
+                     None, 'keyvals')
+    T.add(FContract(
+        PAR + 'parse_keyvals_list', ghosts=parser_ghost,
+        params=lambda G: {'self': ParserS(G['src']),
+                          'tokens': tm.DocList(G['src'])},
+        result=lambda A: KeyValS(A['src']),
+        post_objs=[('parser', P_self, post_parser)]))
+    T.add(FContract(
+        PAR + 'expand_keyvals', ghosts=parser_ghost,
+        params=lambda G: {'self': ParserS(G['src']),
+                          'keyvals': KeyValS(G['src'])},
+        result=lambda A: ListS(TupleS(StrS(name='key'),
+                                      OptS(StrS(name='val'))), None, 'kv'),
+        post_objs=[('parser', P_self, post_parser)]))
+    from pyvc.contracts import DictS as _DictS
+    T.add(FContract(
+        PAR + 'parse_keyvals_dict', ghosts=parser_ghost,
+        params=lambda G: {'self': ParserS(G['src']),
+                          'tokens': tm.DocList(G['src'])},
+        result=lambda A: _DictS(OptS(tm.DocList(A['src'], None, None,
+                                                'val')), 'keyvals'),
+        post_objs=[('parser', P_self, post_parser)]))
+    # module initialisation (assumed, X): returns the module's inject_tokens
+    T.add(FContract(
+        PAR + 'modify_parameters', ghosts=parser_ghost,
+        params=lambda G: {'self': ParserS(G['src']), 'f': AnyS(),
+                          'options': AnyS(), 'position': IntS()},
+        result=lambda A: ListS(tm.TokS(lambda ex, t: And(
+            tm.cls_inv(ex, t), tm.cls_is(ex, t, D + 'LanguageToken'))),
+            None, 'inject'),
+        post_objs=[('parser', P_self, post_parser)]))
+    T.add(FContract(
+        PAR + 'init_package', ghosts=parser_ghost,
+        params=lambda G: {'self': ParserS(G['src']), 'name': AnyS(),
+                          'actions': AnyS(), 'options': AnyS(),
+                          'position': IntS()},
+        result=lambda A: ListS(tm.TokS(lambda ex, t: And(
+            tm.cls_inv(ex, t), tm.cls_is(ex, t, D + 'LanguageToken'))),
+            None, 'inject'),
+        post_objs=[('parser', P_self, post_parser)]))
+    T.add(FContract('yalafi.utils.get_module_handler',
+                    params={'name': AnyS(), 'prefix': AnyS()},
+                    result=lambda A: AnyS('module_handler'), pure=True))
 
     c = T.add(FContract(
         PAR + 'get_environment_name', ghosts=parser_ghost,
@@ -283,28 +342,45 @@ def register(T, repo):
         g = parser_ghost(ex, st, mode, vals)
         if mode == 'proof':
             g['nargs'] = fresh_int('nargs')
+            g['lo'] = fresh_int('lo')
+            g['hi'] = fresh_int('hi')
         else:
             g['nargs'] = vals['arguments'].length()
+            g['lo'] = 0
+            g['hi'] = zint(g['src'].ln) - 1
         return g
+
+    def hull_doc(G):
+        # C04: ghost interval [lo, hi] containing the call position and all
+        # argument tokens; every generated token stays inside it
+        return tm.TokS(lambda ex, t: And(
+            tm.ok(ex, t, G['src']), zint(G['lo']) <= zint(t.fields['pos']),
+            zint(t.fields['pos']) <= zint(G['hi'])), name='hd')
 
     c = T.add(FContract(
         PAR + 'generate_replacements', ghosts=gr_ghost,
         params=lambda G: {
             'self': ParserS(G['src']),
-            'arguments': ListS(tm.DocList(G['src']), None, 'arguments'),
+            'arguments': ListS(ListS(hull_doc(G), None, 'arg'), None,
+                               'arguments'),
             'repls': BodyList(G['nargs'], 'repls'),
             'start': IntS(name='start')},
         requires=[('start-in-range', in_range),
+                  ('start-in-hull', lambda A: And(
+                      zint(A['lo']) <= zint(A['start']),
+                      zint(A['start']) <= zint(A['hi']))),
                   ('arg-refs-in-range', lambda A: zint(A['nargs']) <=
                    zint(A['arguments'].length()))],
-        result=lambda A: tm.DocList(A['src']),
+        result=lambda A: ListS(hull_doc(A), None, 'gr_result'),
         pure=True))
     for k in (0, 1):
         lp = c.loop(k)
         lp.invs.append(('cur_pos-in-range', lambda E: And(
             0 <= zint(E['cur_pos']),
-            zint(E['cur_pos']) < zint(E['src'].ln))))
-    c.loop(1).shapes['out'] = lambda E: tm.DocList(E['src'])
+            zint(E['cur_pos']) < zint(E['src'].ln),
+            zint(E['lo']) <= zint(E['cur_pos']),
+            zint(E['cur_pos']) <= zint(E['hi']))))
+    c.loop(1).shapes['out'] = lambda E: ListS(hull_doc(E), None, 'out')
 
     # ---------------------------------------------------------- arg_buffer
     c = T.add(FContract(
